@@ -202,3 +202,20 @@ Fixpoint pgrow_chain (H mm : Z) (hash : Z -> Z) (t : ptable) (L : Z) (Ls : list 
                  | Stuck => Stuck | Fuel => Fuel | Exn => Exn
                  end
   end.
+
+(* ---- HashSet::pvFind(key) across chained generations (HashSet.h:1040-1060): the newest table first, then GetNextBuckets() ... ----
+   result: (generation index counted from the newest, bucket index, slot) *)
+Fixpoint pfind_gens (gens : list (ptable * Z)) (key h : Z) : outcome (option (nat * Z * Z)) :=
+  match gens with
+  | [] => Ok None
+  | (t, L) :: r =>
+    match pfind t L key h with
+    | Ok (Some (b, s)) => Ok (Some (O, b, s))
+    | Ok None => match pfind_gens r key h with
+                 | Ok (Some (g, b, s)) => Ok (Some (S g, b, s))
+                 | Ok None => Ok None
+                 | Stuck => Stuck | Fuel => Fuel | Exn => Exn
+                 end
+    | Stuck => Stuck | Fuel => Fuel | Exn => Exn
+    end
+  end.
